@@ -19,6 +19,11 @@ pub(super) fn index_for_rcurrent(
         .unwrap_or(0);
 
     if rotate_rcurrent {
+        #[cfg(flexi_logger_verif)]
+        crate::verif_hooks::point(
+            "fs:rename",
+            Some(&config.file_spec.as_pathbuf(Some(&number_infix(index_for_rcurrent)))),
+        )?;
         match std::fs::rename(
             config.file_spec.as_pathbuf(Some(CURRENT_INFIX)),
             config
